@@ -585,6 +585,67 @@ def section_failures(ck, rng, record):
     ck.extra["failure_paths"] = observed
 
 
+
+def section_translation(ck, rng, record, kbl_builder):
+    """time-origin conventions: for dates read as TIMES (min != 0 before and after) the whole model is invariant under a
+    translation d -> d + c of the date vector, on every construction route; a translation that puts the smallest date
+    on 0 switches to the documented 'ages' reading (checked against the model's leaf heights, not for invariance)"""
+    from torchtree.evolution.tree_model import ReparameterizedTimeTreeModel as R, TimeTreeModel as M
+
+    tmpdir = tempfile.mkdtemp(prefix="c06-transl-")
+    for i in range(16 if ck.thorough() else 6):
+        n = rng.randrange(3, 7)
+        t = G.random_flip(G.random_topology(n, rng), rng)
+        base = [2000.0 + rng.randrange(0, 41) / 4.0 for _ in range(n)]
+        if len(set(base)) == 1:
+            base[0] -= 1.5
+        leaf = [max(base) - d for d in base]
+        kind = ("ratio", "difference")[i % 2]
+        x = draw(kind, t, base, rng)
+        ref = observables(G.make_reparam(t, base, torch.tensor(x, dtype=DT), kind))
+        hts = valid_heights(t, base, rng)
+        ref_tt = observables(G.make_timetree(t, base, hts))
+        shifts = [-max(base), -2021.0, 10.0, -2004.5, 1000.0, -min(base) - 0.25, -min(base)]
+        for c in shifts:
+            dates = [d + c for d in base]
+            as_times = min(dates) != 0.0
+            label = "max=0 (forward axis, origin at the last sample)" if max(dates) == 0.0 else (
+                "min=0 (read as ages)" if not as_times else f"c={c:g}")
+            rep = {"type": "translation", "tree": G.paren(t), "dates": dates, "base": base, "kind": kind, "x": x, "c": c}
+            ck.case(key=("translation", G.paren(t), tuple(base), c, kind), bucket="dates/translation/" + label.split(" ")[0])
+            builders = {name: b for name, _tol, b in reparam_routes(t, dates, x, kind, rng, tmpdir)
+                        if name.startswith(("ctor-positional", "flexible[x=inline]", "json_factory"))}
+            frj = [(name, b) for name, _tol, b in reparam_routes(t, dates, x, kind, rng, tmpdir) if name.startswith("from_json")][:1]
+            builders.update(dict(frj))
+            for name, build in builders.items():
+                try:
+                    m = build()
+                    got = observables(m)
+                    probs = [w for _c, w in property_on(m, dates)]
+                    if as_times:
+                        tol = 1e-5 if name == "json_factory" else 0.0
+                        probs += [f"not invariant under the translation of the dates by {c!r}: " + w
+                                  for w in same_as_reference(ref, got, tol)]
+                except Exception as e:
+                    probs = [f"raises {type(e).__name__}: {str(e)[:140]}"]
+                for w in probs[:1]:
+                    record(f"dates-translation:{name.split('[')[0]}:{kind}", f"dates {dates} ({label}) through {name}: {w}", rep, (n, 1, 0))
+            # plain TimeTreeModel and the keep_branch_lengths route (initialize_dates_from_taxa + heights_from_branch_lengths)
+            try:
+                got = observables(G.make_timetree(t, dates, hts))
+                if as_times:
+                    for w in same_as_reference(ref_tt, got, 0.0)[:1]:
+                        record("dates-translation:TimeTreeModel", f"dates {dates} ({label}): not invariant under translation: {w}", rep, (n, 1, 0))
+                if as_times:
+                    case = kbl_builder(t, dates, [leaf[j] for j in range(n)] + hts)
+                    for clause, w in case:
+                        record(f"dates-translation:keep_branch_lengths:{clause}", f"dates {dates} ({label}), dated Newick read with keep_branch_lengths: {w}",
+                               rep, (n, 1, 0))
+                        break
+            except Exception as e:
+                record("dates-translation:raises", f"dates {dates}: raises {type(e).__name__}: {str(e)[:140]}", rep, (n, 1, 0))
+
+
 def replay_route(obj):
     """re-build a recorded route (the randomised from_json variants are re-drawn: every variant of the same
     option value is expected to fail alike)"""
